@@ -89,7 +89,7 @@ def step (d : D) (op impl : String) : D × DrvOut :=
       let model :=
         if found.isEmpty then "none"
         else if found.any (fun x => x.2.isNone) then "-"
-        else ",".intercalate ((found.map fun x => s!"{Hex.encode x.1}@{x.2.getD 0}").foldr insertStr [])
+        else ",".intercalate (((found.map fun x => (x.1, x.2.getD 0)).foldr insertSeg []).map fun x => s!"{Hex.encode x.1}@{x.2}")
       let spec :=
         match parseFiles impl with
         | some listed =>
@@ -98,7 +98,9 @@ def step (d : D) (op impl : String) : D × DrvOut :=
           | none =>
             match listed.find? (fun y => !files.any fun x => x.1 == y.1 && cut hasF x.2 == y.2) with
             | some y => s!"FAIL listing reports another start instant than the one the segment was written for: {Hex.encode y.1}"
-            | none => "ok"
+            | none =>
+              if (listed.zip (listed.drop 1)).any (fun ab => ab.1.2 > ab.2.2) then "FAIL the listing is not in the order of the start instants"
+              else "ok"
         | none => "FAIL unparsable implementation answer"
       (d, { model, spec })
     | _, _, _ => (d, { model := "bad-op" })
